@@ -1,4 +1,6 @@
 import OrbitModel.Proofs.CrashSummary
+import OrbitModel.Proofs.GenEqWrite
+import OrbitModel.Proofs.GenEqLoadComplete
 import OrbitModel.Proofs.StoreReach
 import OrbitModel.Proofs.CrashExample
 /-!
@@ -33,5 +35,11 @@ cover the whole log, whatever logs of a batch were rejected (after the `fix:` co
 theorem cached_heads_cover_the_log {acl : Acl} {U : List Entry} {s : Store} (hU : HashDet U) (hM : ClockMono U)
     (h : StoreReachable acl U s) : Good U s.log ∧ StoreCovers s :=
   storeReachable_covers hU hM h
+
+/-- the order of the persistence effects in the Go text of this run is the one of the effect
+traces the theorems quantify over: a local write persists its head right after the append, a merged
+batch persists the heads of the MERGED log after the joins and before it is reported -/
+theorem persistence_order_tied_to_go_text : Gen.addOperationOrder = Order.addOperation ∧
+    Gen.loadCompleteOrder = Order.loadComplete := ⟨gen_addOperation_order, gen_loadComplete_order⟩
 
 end Orbit.C05
